@@ -10,6 +10,7 @@ struct MultiHarness : Harness {
   void add(Harness* h, const std::string& dom) { subs.push_back(h); doms.push_back(dom); }
   const char* name() const override { return hname.c_str(); }
   void warmup() override { for (auto* h : subs) h->warmup(); }
+  int child_seconds() const override { return subs[0]->child_seconds(); }
   std::vector<std::pair<std::string, long> > shrink_knobs() const override { return subs[0]->shrink_knobs(); }
   Plan generate(Rng& r, const std::string& prop, bool thorough) override {
     size_t i = r.below(subs.size());
